@@ -738,6 +738,19 @@ example : Good poseDB (rootsOf poseSchema poseDB "Pose") poseExpr := by
 example : ∃ s, translate poseSchema qPose = .ok s ∧ s.joins = [⟨"Pose", ["position"]⟩] ∧
     execSql poseSchema s poseDB = [3] ∧ evalMem poseSchema qPose poseDB = some [3] := by
   refine ⟨_, rfl, ?_, ?_, ?_⟩ <;> decide
+/-- multiplicity (a test, by `decide`): a join between two variables has one solution per matching PAIR.  The fixed
+connection 0→1 (row 2) shares its parent with two revolute connections: the statement returns its row twice, in memory it
+is a solution twice, and `the(...)` fails in both worlds (MultipleResultsFound / MultipleSolutionFound). -/
+def connDB2 : DB :=
+  [body 1, body 2, conn "FixedConnection" 0 1, conn "RevoluteConnection" 0 1, conn "RevoluteConnection" 0 0]
+def qJoin : Query :=
+  ⟨true, .entity, ["FixedConnection", "RevoluteConnection"],
+   some (.cmp .eq (.chain ⟨0, ["parent"]⟩) (.chain ⟨1, ["parent"]⟩))⟩
+example : ∃ s, translate connSchema qJoin = .ok s ∧ execSql connSchema s connDB2 = [2, 2] ∧
+    evalMemMulti connSchema qJoin connDB2 = some [2, 2] ∧ theOf (execSql connSchema s connDB2) = .multiple ∧
+    evalMem connSchema qJoin connDB2 = some [2] := by
+  refine ⟨_, rfl, ?_, ?_, ?_, ?_⟩ <;> decide
+
 /-- `C07_rejects_nested` is not vacuous: a `not_` two levels down -/
 example : ContainsOutside (.and (.attr ⟨0, ["x"]⟩) (.or (.not (.attr ⟨0, ["y"]⟩)) (.attr ⟨0, ["z"]⟩))) := by
   simp [ContainsOutside, OutsideDispatch]
